@@ -14,6 +14,16 @@ COMMON = [
 ]
 
 K_PROPS = {
+    "C19": dict(assumptions=COMMON + KERNEL_ASSUMPTIONS + [
+                    "clock_gettime model: arbitrary normalised instants, non-decreasing (the kernel's guarantee is assumed, not checked)",
+                    "nanosleep model: completes, or -EINTR after sleeping any part with the exact remainder written; <= 3 interruptions",
+                    "exactness oracle is stated without multiplication in 128-bit arithmetic (carry pairs), see c19.rs"],
+                outside=["that the real kernel's monotonic clock is monotonic; vDSO agreement with the syscall (kernel-provided code)",
+                         "wall-clock lower bound of sleep on a real kernel (follows from the remainder protocol checked here plus the kernel contract)"]),
+    "C10": dict(assumptions=COMMON + ["alloc::fmt::format is executed for real (no stub) at the stated operand sizes",
+                                      "format operands are one `{}` of a symbolic ASCII str, or literals"],
+                outside=["inputs longer than the stated byte lengths", "DirEntry::file_unix_name is checked under C14 (directory records)",
+                         "UnixStr::from_str_checked's panic on ill-terminated input is its documented const-context rejection and is expected"]),
     "C11": dict(assumptions=COMMON + ["reference functions for find/prefix/suffix/join/parent/file-name are the 10-20 line "
                                       "definitions in engine_k/k_rusl/src/util.rs and c11.rs, written from the property text "
                                       "and the repository's doc comments"],
